@@ -580,7 +580,8 @@ impl SynGen {
             )
         });
         let comment = self.sub(|g| {
-            let w = g.rng.pick(WORDS).to_string();
+            // free text may begin with a colon without being a tag list
+            let w = if g.rng.chance(1, 8) { g.rng.pick(&[":-D she paid", ": see receipt", "::", ":", ":a:b: trailing text", ":not a tag"]).to_string() } else { g.rng.pick(WORDS).to_string() };
             let lead = g.sp1();
             (format!("{}{}", lead, w), Metadata::Comment(Cow::Owned(w)))
         });
@@ -790,7 +791,7 @@ impl SynGen {
                 text.push_str(&s_after_state);
             }
             let has_code = g.feat(Feat::Code, 1, 5);
-            let code = g.rng.pick(&["#12", "TXN-001", "a b", "1234", "コード"]).to_string();
+            let code = g.rng.pick(&["#12", "TXN-001", "a b", "1234", "コード", ""]).to_string();
             let inner = g.feat(Feat::CodeInnerSpace, 1, 6);
             let s_after_code = g.sp0();
             if has_code {
